@@ -24,6 +24,8 @@
 //!               descriptors (rounded down to a param boundary, reported as "slots"); the descriptors are moved out of the
 //!               decoded Param trees (arrays, structs, dict entries, variants) into variables of the caller
 //!   M<b>        msg.unmarshall_all() (consumes the message; Message.raw_fds is put back into an equal body on success)
+//!   Z<f|p>:<cs>  (last op) a frame with descriptors that cannot be delivered (bad header field / non-zero padding),
+//!               then the connection is dropped; not part of the model: judged by the audit alone
 //!   C<h> clone   Y<h> dup   T<h> take_raw_fd   X<h> drop
 //! Operations naming something that does not exist are skipped ("invalid"), as in the model.
 //!
@@ -135,7 +137,7 @@ struct Transit {
 }
 
 struct World {
-    conn: DuplexConn,
+    conn: Option<DuplexConn>, // None once the history dropped it (Z)
     peer: UnixStream,
     baseline: BTreeSet<RawFd>,
     cfds: Vec<Option<RawFd>>,
@@ -639,7 +641,7 @@ fn calibrate_first_write(w: &mut World) -> Option<usize> {
     let mut hdr = Vec::new();
     rustbus::wire::marshal::marshal(&m, NonZeroU32::new(78).unwrap(), &mut hdr).ok()?;
     let total = hdr.len() + m.get_buf().len();
-    let mut ctx = w.conn.send.send_message(&m).ok()?;
+    let mut ctx = w.conn.as_mut()?.send.send_message(&m).ok()?;
     let first = ctx.write_once(Timeout::Nonblock).ok()?;
     let mut got = 0;
     let mut guard = 0;
@@ -680,7 +682,8 @@ fn do_send(w: &mut World, b: usize, mode: SendMode) -> String {
     if w.bods.get(b).map(|x| x.is_none()).unwrap_or(true) {
         return "\"res\":\"invalid\"".into();
     }
-    let sfd = w.conn.send.as_raw_fd();
+    let Some(conn) = w.conn.as_ref() else { return "\"res\":\"invalid\"".into() };
+    let sfd = conn.send.as_raw_fd();
     let old_sndbuf = sndbuf(sfd);
     let old_path = w.bods[b].as_ref().unwrap().msg.dynheader.object.clone();
     if mode != SendMode::Plain {
@@ -734,7 +737,8 @@ fn do_send_inner(w: &mut World, b: usize) -> String {
     }
     let hdrlen = hdr.len();
     let total = hdr.len() + msg.get_buf().len();
-    let send = &mut w.conn.send;
+    let Some(conn) = w.conn.as_mut() else { return "\"res\":\"invalid\"".into() };
+    let send = &mut conn.send;
     let peer = &w.peer;
     // One thread: write_once(Nonblock) while the peer is not reading, until the socket buffer is full;
     // then the peer reads what is there, and the write is resumed; and so on. A message (or a header)
@@ -875,9 +879,12 @@ fn do_inject(w: &mut World, cs: &[usize], idxs: &[u32]) -> String {
 }
 
 fn do_recv(w: &mut World) -> String {
+    if w.conn.is_none() {
+        return "\"res\":\"invalid\"".into();
+    }
     let Some(t) = w.wire.pop_front() else { return "\"res\":\"invalid\"".into() };
     let peer = &w.peer;
-    let recv = &mut w.conn.recv;
+    let recv = &mut w.conn.as_mut().unwrap().recv;
     let (sres, rres) = std::thread::scope(|s| {
         let tr = &t;
         let sd = s.spawn(move || send_all(peer, &tr.bytes, &tr.fds));
@@ -899,6 +906,103 @@ fn do_recv(w: &mut World) -> String {
         }
         Err(e) => format!("\"res\":\"err\",\"detail\":\"{}\"", format!("{:?}", e).replace('"', "'")),
     }
+}
+
+/// Z<f|p>:<cs>  (last operation of a history) the peer sends a frame that carries dups of the caller's
+/// descriptors cs and cannot be delivered: f = a header field does not decode (invalid object path:
+/// get_next_message fails BEFORE it takes the descriptors out of RecvConn.fds_in), p = non-zero padding
+/// between header and body (unmarshal_next_message fails AFTER the descriptors were moved out).
+/// Then the connection is dropped (a RecvConn with pending fds_in). Whoever holds the received
+/// descriptors has to close them: the audit after this operation sees the result.
+fn do_bad_frame(w: &mut World, kind: char, cs: &[usize]) -> String {
+    if w.conn.is_none() || cs.len() > 253 {
+        return "\"res\":\"invalid\"".into();
+    }
+    for c in cs {
+        if w.cfds.get(*c).map(|x| x.is_none()).unwrap_or(true) {
+            return "\"res\":\"invalid\"".into();
+        }
+    }
+    let mut bytes = Vec::new();
+    let mut bodybytes = Vec::new();
+    let mut ok = false;
+    // the signature is the last header field: its length decides whether there is padding before the body
+    for extra in 0..8usize {
+        let mut m = MessageBuilder::new().signal("io.verif.C11", "Bad", "/io/verif").build();
+        m.dynheader.serial = NonZeroU32::new(79);
+        for i in 0..cs.len() + extra {
+            m.body.push_param(i as u32).unwrap();
+        }
+        let bo = m.body.byteorder();
+        bodybytes = m.get_buf().to_vec();
+        if bodybytes.is_empty() {
+            continue; // a body is needed (for the padding case)
+        }
+        let sig: String = "u".repeat(cs.len() + extra);
+        m.body = rustbus::message_builder::MarshalledMessageBody::from_parts(bodybytes.clone(), 0, Vec::new(), sig, bo);
+        bytes.clear();
+        if rustbus::wire::marshal::marshal(&m, NonZeroU32::new(79).unwrap(), &mut bytes).is_err() {
+            return "\"res\":\"HARNESS cannot build the frame\"".into();
+        }
+        let fl = rd_u32(&bytes, 12, bo).unwrap_or(0) as usize;
+        let end = 16 + fl;
+        if kind == 'p' {
+            if end % 8 != 0 && end < bytes.len() {
+                bytes[end] = 1; // padding must be zero
+                ok = true;
+                break;
+            }
+        } else {
+            if let Some(pos) = bytes.windows(9).position(|x| x == b"/io/verif") {
+                bytes[pos] = b'x'; // not an object path
+                ok = true;
+            }
+            break;
+        }
+    }
+    if !ok {
+        return "\"res\":\"HARNESS cannot corrupt the frame\"".into();
+    }
+    bytes.extend_from_slice(&bodybytes);
+    let mut fds = Vec::new();
+    for c in cs {
+        match nix::unistd::dup(w.cfds[*c].unwrap()) {
+            Ok(f) => fds.push(f),
+            Err(e) => return format!("\"res\":\"HARNESS dup {}\"", e),
+        }
+    }
+    let peer = &w.peer;
+    let recv = &mut w.conn.as_mut().unwrap().recv;
+    let (sres, rres) = std::thread::scope(|s| {
+        let (b, f) = (&bytes, &fds);
+        let sd = s.spawn(move || send_all(peer, b, f));
+        let r = recv.get_next_message(Timeout::Duration(HANG));
+        (sd.join().unwrap_or_else(|_| Err("panic".into())), r)
+    });
+    for f in &fds {
+        let _ = nix::unistd::close(*f);
+    }
+    if let Err(e) = sres {
+        return format!("\"res\":\"HARNESS {}\"", e);
+    }
+    let res = match rres {
+        Ok(msg) => {
+            w.bods.push(Some(BodyRec { msg, shapes: Some(vec![]) }));
+            format!("\"res\":\"b:{}\"", w.bods.len() - 1)
+        }
+        Err(e) => format!("\"res\":\"err\",\"detail\":\"{}\"", format!("{:?}", e).replace('"', "'")),
+    };
+    // drop the connection; its own sockets leave the baseline
+    let before: BTreeSet<RawFd> = open_fds().keys().cloned().collect();
+    w.conn = None;
+    let after: BTreeSet<RawFd> = open_fds().keys().cloned().collect();
+    let held: BTreeSet<RawFd> = w.wire.iter().flat_map(|t| t.fds.iter().cloned()).collect();
+    for f in before.difference(&after) {
+        if !held.contains(f) {
+            w.baseline.remove(f);
+        }
+    }
+    format!("{},\"arrived\":{}", res, cs.len())
 }
 
 fn do_unmarshal(w: &mut World, b: usize, idx: u32) -> String {
@@ -1247,6 +1351,14 @@ fn do_op(w: &mut World, op: &str) -> String {
             }
         }
         "V" => do_recv(w),
+        "Z" => {
+            let parts: Vec<&str> = arg.split(':').collect();
+            let kind = parts.first().and_then(|x| x.trim().chars().next()).unwrap_or('f');
+            match parse_nums::<usize>(parts.get(1).copied().unwrap_or("-")) {
+                Some(cs) => do_bad_frame(w, kind, &cs),
+                None => "\"res\":\"BADOP\"".into(),
+            }
+        }
         "U" => {
             let parts: Vec<&str> = arg.split(':').collect();
             match (parts.first().and_then(|x| x.trim().parse::<usize>().ok()), parts.get(1).and_then(|x| x.trim().parse::<u32>().ok())) {
@@ -1313,7 +1425,7 @@ fn run_history(line: &str) -> String {
     CLOSE_LOG.lock().unwrap().clear();
     let baseline: BTreeSet<RawFd> = open_fds().keys().cloned().collect();
     let mut w = World {
-        conn,
+        conn: Some(conn),
         peer,
         baseline,
         cfds: vec![],
